@@ -312,6 +312,11 @@ func TestVerifC10(t *testing.T) {
 		{`\p{L}`, func(c rune) bool { return unicode.Is(unicode.L, c) }},
 		{`\p{Nd}`, func(c rune) bool { return unicode.Is(unicode.Nd, c) }},
 		{`\P{L}`, func(c rune) bool { return !unicode.Is(unicode.L, c) }},
+		// the documented negation inside the braces: \p{^X} is the complement, \P{^X} is X again
+		// (seeded change C10-r10m2 made ^ set the negation instead of toggling it)
+		{`\p{^Nd}`, func(c rune) bool { return !unicode.Is(unicode.Nd, c) }},
+		{`\P{^Lu}`, func(c rune) bool { return unicode.Is(unicode.Lu, c) }},
+		{`\P{^Greek}`, func(c rune) bool { return unicode.Is(unicode.Greek, c) }},
 		{`\p{Greek}`, func(c rune) bool { return unicode.Is(unicode.Greek, c) }},
 		{`\x{400}-\x{4ff}`, func(c rune) bool { return c >= 0x400 && c <= 0x4ff }},
 		{`\U00010000-\U0001ffff`, func(c rune) bool { return c >= 0x10000 && c <= 0x1ffff }},
